@@ -23,7 +23,7 @@ F32B = [0x00000000, 0x80000000, fbits(1.0), fbits(-1.0), fbits(0.5), fbits(-0.5)
         0x00000001, 0x7f7fffff, fbits(2147483648.0), fbits(1e20)]
 BOOLB = [True, False]
 NAMEB = ["A", "B", "", "é", "TRUE", "12", "NOOP", "a b"]
-INDEXB = [(0, 0), (0, 1), (1, 1), (2, 5), (5, 2), (2147483647, 2147483648)]
+INDEXB = [(0, 0), (0, 1), (1, 1), (2, 5), (5, 2), (2147483647, 2147483648), (3000000000, 18446744073709551615), (2147483648, 2147483647)]
 BVECB = [[], [True], [False], [False, True], [True, False, True], [True, True, False, False]]
 IVECB = [[], [0], [MIN], [1, 2], [MAX, MIN, -1], [3, 1, 2, 1], [1, 2, 3, 4, 5, 6, 7, 8, 9, 10, 11, 12]]
 FVECB = [[], [NAN], [fbits(1.0)], [PINF, NINF], [0x00000000, 0x80000000, fbits(1.0)], [fbits(2.5), NAN, fbits(-1.0), fbits(2.5)]]
@@ -37,7 +37,7 @@ BINDB = [[], [("A", Z(1))], [("A", L()), ("NOOP", I("NOOP"))], [("B", L(N("B")))
 # INTEGER pools of the instructions whose operand is an allocation size / a libm loop count
 ALLOC_I32 = [MIN, -2, -1, 0, 1, 2, 3, 12, 300]
 SINE_I32 = [MIN, -2, -1, 0, 1, 2, 3, 5, 12]
-NBR_I32 = [MIN, -2, -1, 0, 1, 2, 3, 12, 40]
+NBR_I32 = [MIN, -2, -1, 0, 1, 2, 3, 12, 40, 63, 64, 65, 70]
 VEC_RAND = {"BOOLVECTOR.RAND", "INTVECTOR.RAND", "FLOATVECTOR.RAND"}
 SIZED = set(stepgen.ALLOCATING) | VEC_RAND            # the top INTEGER (NEIGHBOR: one of four) is a size
 
